@@ -236,7 +236,7 @@ pub enum Focus {
     Faults,
 }
 
-const WINDOWS: &[u32] = &[65535, 1, 2, 100, 1000, 16384, 16385, 65536, 100_000, 1 << 20];
+const WINDOWS: &[u32] = &[65535, 1, 2, 100, 1000, 16384, 16385, 65536, 100_000, 1 << 20, 0x7fff_ffff];
 const BODY: &[usize] = &[0, 1, 2, 100, 255, 256, 257, 1000, 1023, 1024, 1025, 5000, 16383, 16384, 16385, 20000, 40000, 65535, 65536, 70000, 100_000];
 
 fn gen_cfg(t: &mut Tape, server: bool) -> Cfg {
